@@ -41,6 +41,10 @@ def replay(chk, path):
     return run(chk)
 
 
+RESUME_WHEN = {"verify": "VerifyConnection time", "getcert": "GetClientCertificate time (ConnectionState() inside the callback)",
+               "mid": "mid-handshake (ConnectionState() from another goroutine)", "established": "established time"}
+
+
 def run(chk):
     proved = chk.prove()
     out = vlib.out_path("c07")
@@ -81,15 +85,21 @@ def run(chk):
         if r.get("epoch0") or r.get("leaks"):
             found = True
             chk.finding("state.go generateInternalState / resume.go (state captured before the keys were switched on)",
-                        {"monitor": "resumed connection emits application data unprotected", "captured": r["mode"]},
-                        "a State captured at %s time (%s side) was accepted by Resume and the first Write emitted %d "
+                        {"monitor": "resumed connection emits application data unprotected",
+                         "captured": "".join(ch for ch in r["mode"] if not ch.isdigit())},
+                        "a State captured at %s (%s side%s) was accepted by Resume and the first Write emitted %d "
                         "application_data record(s) at epoch 0%s [variant %s]" % (
-                            "VerifyConnection" if r["mode"] == "verify" else "established", r["side"], r.get("epoch0", 0),
-                            " with the payload in clear" if r.get("leaks") else "", r["variant"]),
+                            RESUME_WHEN.get(r["mode"].split("-")[0].rstrip("0123456789"), r["mode"]), r["side"],
+                            "; handed to Resume as the *State the library returned, no serialisation round trip: " + r.get("st_note", "")
+                            if r["mode"].endswith("-direct") else "; MarshalBinary / UnmarshalBinary round trip",
+                            r.get("epoch0", 0), " with the payload in clear" if r.get("leaks") else "", r["variant"]),
                         {"variant": r["variant"], "captured": r["mode"], "side": r["side"], "labels": r["labels"],
-                         "leak": (r.get("leaks") or [None])[0],
-                         "how": "handshake of `variant` with a VerifyConnection callback that serialises the State it is given "
-                                "(MarshalBinary); UnmarshalBinary + Resume on a fresh socket; Write one payload; look at the wire"})
+                         "state": r.get("st_note"), "leak": (r.get("leaks") or [None])[0],
+                         "how": "handshake of `variant`; the State is taken as `captured` says (verify = argument of the "
+                                "VerifyConnection callback, getcert = ConnectionState() inside GetClientCertificate, midK = "
+                                "ConnectionState() by another goroutine before handshake datagram #K is delivered, established = "
+                                "ConnectionState() after the handshake; `-direct` = the *State goes straight to Resume, otherwise "
+                                "MarshalBinary + UnmarshalBinary first); Resume on a fresh socket; Write one payload; look at the wire"})
             break
 
     # ---- monitors on the implementation trace
